@@ -73,7 +73,12 @@ class lmhash(uh.TruncateMixin, uh.HasEncodingContext, uh.StaticHandler):
     def _calc_checksum(self, secret):
         # check for truncation (during .hash() calls only)
         if self.use_defaults:
-            self._check_truncate_policy(secret)
+            # NOTE: the limit applies to the bytes raw() will actually use
+            #       (upper-cased, then encoded using the configured codepage)
+            if isinstance(secret, str):
+                self._check_truncate_policy(secret.upper().encode(self.encoding))
+            else:
+                self._check_truncate_policy(secret)
 
         return hexlify(self.raw(secret, self.encoding)).decode("ascii")
 
